@@ -484,6 +484,10 @@ pub(crate) trait Compile<E = Error> {
 pub(crate) struct Dependency<'a> {
     pub ident: Cow<'a, Ident>,
     pub cycles_needed: usize,
+    /// Set once the dependency has left the function in which it arose. A `modify x = ..`
+    /// names a variable of an enclosing function: no variable of the function it is written
+    /// in can supply it, however many blocks lie between the two.
+    pub crossed_function: bool,
 }
 
 impl PartialEq for Dependency<'_> {
@@ -503,7 +507,12 @@ impl<'a> Dependency<'a> {
         Self {
             ident,
             cycles_needed: 0,
+            crossed_function: false,
         }
+    }
+    pub fn cross_function(mut self) -> Self {
+        self.crossed_function = true;
+        self
     }
     pub fn increment_cycle(&mut self) {
         self.cycles_needed += 1;
@@ -522,7 +531,7 @@ impl<'a> Dependency<'a> {
         let self_ty: &TypeLayout = self.ident.ty()?.as_ref();
 
         if let TypeLayout::CallbackVariable(ptr_ty) = other_ty {
-            if other.cycles_needed > 0 {
+            if other.cycles_needed > 0 && other.crossed_function {
                 return Ok(self_ty == ptr_ty.as_ref());
             }
         }
